@@ -709,7 +709,23 @@ impl History {
                     shown.push(format!("search({},{:?})", id, q));
                     cx.ctx(format!("C01 registry history={:?}", shown));
                     run_search(id, &q);
-                    let hits: Hits = using_results(id, |b| b.iter().map(|r| (r.id, r.title.clone())).collect());
+                    // some readers act on a live store while they hold the buffer (a marker change or an add, on this id or the other)
+                    let nested = cx.rng.below(8);
+                    let other = if live[1 - k] && cx.rng.chance(1, 2) { ids[1 - k] } else { id };
+                    let (na, nb) = (gen::hostile(&mut cx.rng, 2), gen::hostile(&mut cx.rng, 2));
+                    if nested < 2 {
+                        shown.push(format!("read({}) with {} on {} inside the reader", id, if nested == 0 { "a marker change" } else { "an add" }, other));
+                        cx.ctx(format!("C01 registry history={:?}", shown));
+                        cx.count("registry: readers that call back into the registry");
+                    }
+                    let hits: Hits = using_results(id, |b| {
+                        if nested == 0 {
+                            highlight_with(other, (&na, &nb));
+                        } else if nested == 1 {
+                            add_record(other, 49, &na, 1);
+                        }
+                        b.iter().map(|r| (r.id, r.title.clone())).collect()
+                    });
                     cx.eval();
                     cx.trace_hits(&hits);
                     cx.count("registry: searches");
@@ -929,10 +945,20 @@ impl History {
                 }
                 if is_reader {
                     let (_, target, rid, title, ra) = nested.clone().unwrap();
-                    hist.push(format!("read({}) and, inside the reader, add({},{},{:?},{})", mid, target, rid, title, ra));
+                    // ... or changes a store's markers (ra even: add; odd: markers)
+                    let marks = gen::MARKERS[rid % gen::MARKERS.len()];
+                    if ra % 2 == 0 {
+                        hist.push(format!("read({}) and, inside the reader, add({},{},{:?},{})", mid, target, rid, title, ra));
+                    } else {
+                        hist.push(format!("read({}) and, inside the reader, markers({},{:?},{:?})", mid, target, marks.0, marks.1));
+                    }
                     cx.ctx(format!("C20 lang={} history={:?}", lang, hist));
                     let got: Hits = using_results(*mid, |b| {
-                        add_record(target, rid, &title, ra);
+                        if ra % 2 == 0 {
+                            add_record(target, rid, &title, ra);
+                        } else {
+                            highlight_with(target, marks);
+                        }
                         b.iter().map(|r| (r.id, r.title.clone())).collect()
                     });
                     cx.eval();
@@ -959,7 +985,11 @@ impl History {
                 }
             }
             if let Some((_, target, rid, title, ra)) = nested {
-                model.get_mut(&target).unwrap().0.add(&(rid, title, ra));
+                if ra % 2 == 0 {
+                    model.get_mut(&target).unwrap().0.add(&(rid, title, ra));
+                } else {
+                    model.get_mut(&target).unwrap().0.store.highlight_with(gen::MARKERS[rid % gen::MARKERS.len()]);
+                }
             }
             if model.len() >= 2 && model.values().filter(|m| !m.1.is_empty()).count() >= 2 {
                 cross = true;
@@ -1013,7 +1043,7 @@ impl Prop for History {
     }
     fn floors(&self) -> Vec<(&'static str, u64, u64)> {
         match self.0 {
-            Which::NoCrash => vec![("searches", 20000, 200000), ("searches with hits", 5000, 50000), ("joined-record hits (two spans from a one-word query)", 50, 500), ("non-ASCII queries", 2000, 20000), ("limit 0", 200, 2000), ("limit 65536", 200, 2000), ("histories with boundary-value record ids", 2000, 20000), ("long-text searches", 500, 5000), ("long-text searches with a query over 255 characters", 100, 1000), ("corpus-store searches", 300, 3000), ("long-text cases with a giant word or a 1000+ word title", 20, 200), ("soak searches on one store", 600000, 2500000), ("most searches on one store max ", 66000, 66000), ("soak stores with more than 2^16 records", 2, 8), ("adds re-using the id of an earlier record", 5000, 50000), ("registry: searches", 10000, 300000), ("registry: searches with hits", 1500, 45000), ("registry: limit changes", 5000, 150000)],
+            Which::NoCrash => vec![("searches", 20000, 200000), ("searches with hits", 5000, 50000), ("joined-record hits (two spans from a one-word query)", 50, 500), ("non-ASCII queries", 2000, 20000), ("limit 0", 200, 2000), ("limit 65536", 200, 2000), ("histories with boundary-value record ids", 2000, 20000), ("long-text searches", 500, 5000), ("long-text searches with a query over 255 characters", 100, 1000), ("corpus-store searches", 300, 3000), ("long-text cases with a giant word or a 1000+ word title", 20, 200), ("soak searches on one store", 600000, 2500000), ("most searches on one store max ", 66000, 66000), ("soak stores with more than 2^16 records", 2, 8), ("adds re-using the id of an earlier record", 5000, 50000), ("registry: searches", 10000, 300000), ("registry: searches with hits", 1500, 45000), ("registry: limit changes", 5000, 150000), ("registry: readers that call back into the registry", 1500, 45000)],
             Which::NoStale => vec![("search after add following an earlier search", 2000, 20000), ("search after clear following an earlier search", 500, 5000), ("search after limit following an earlier search", 500, 5000), ("empty-query search after a mutation following an earlier search", 1000, 10000), ("exhaustive histories", 20000, 200000), ("histories on a crowded store", 2000, 20000), ("histories that clear and refill a crowded store", 2000, 20000), ("histories growing a store past 64/128/256/512 records with searches in between", 200, 5000), ("histories growing a store past 1024 records with searches in between", 60, 1500), ("soak searches on one store", 1000000, 4000000), ("search repeating the previous query after a mutation", 2000, 20000), ("operations on another store of the same thread inside a history", 3000, 30000), ("registry-driven searches compared with a fresh store", 5000, 50000), ("adds re-using the id of an earlier record", 3000, 30000), ("histories whose searches run on other threads than the adds (the store is moved there and back)", 1500, 15000), ("histories whose reference stores are built and searched on threads of their own", 3000, 30000), ("histories with a very long word next to a threshold match", 2000, 20000), ("histories with more than twenty fully tied records and a shrinking limit", 2000, 20000)],
             Which::Registry => vec![("observations", 20000, 200000), ("observations with >= 2 live ids holding results", 2000, 20000), ("destroy", 300, 3000), ("searches", 3000, 30000), ("histories over 4-20 store ids", 1000, 10000), ("bursts of 45-120 records", 300, 3000), ("stores created with another language than their neighbours", 3000, 30000), ("searches repeating the text just sent to another id", 2000, 20000), ("histories whose result buffers are read only now and then", 5000, 50000), ("reads that add a record from inside the reader", 5000, 50000)],
         }
